@@ -287,6 +287,31 @@ ADDENDA = {
         'TCP, SIGINT while a later board is under way). The translated main thread (Generated/PyCoreThreads.lean) covers the normal path only: MiniPy '
         'drops the state at an exception, so the abort path stays with the hand-written abort model and the fault enumeration.',
 }
+REGEX5 = (' Since session 5 the regular expressions these theorems meet are themselves under theorems (DESIGN 10.2f): the generic regex engine of '
+          'Model/Regex.lean is given a fuel-free denotation (Lemmas/RegexPbnA.lean) and proved equal, pattern by pattern, to the hand scanners of the '
+          'models; the engine <-> CPython step (differential-tested on every C19 run) is what remains assumed. ')
+ADDENDA5 = {
+ 'C08': REGEX5 + 'Translated/MsgParsers*.lean + ThreadsMainE.lean: remove_alert_word, parse_card, parse_bid as translated read every plain-ASCII text as the '
+        'model does, so the main-thread capstone holds with NO parse hypothesis for every scenario whose call and card texts are plain ASCII '
+        '(translated_main_thread_is_session_program_ascii) — not only for the protocol texts.',
+ 'C09': REGEX5 + 'Lemmas/RegexConnect*.lean + Translated/ConnectInfo.lean + ThreadsSeatE.lean: the connection line (case folding proved for all code points; '
+        'class = no non-ASCII decimal digit, shown necessary), translated parse_connection_info = parseConnect?, and the hypothesis hparse of the '
+        'seat-thread capstone discharged (translated_seat_thread_is_session_program_protocol).',
+ 'C11': REGEX5 + 'Translated/ClientParsers*.lean, HandParsers*.lean, ThreadsClientE/F/Hands.lean: parse_team_names, parse_leader_message (every text), parse_board '
+        '(no non-ASCII digit), parse_cards / parse_hand (ASCII; every hand) as translated = the model; connectParses discharged for every input '
+        '(connectParses_all), dealParses for every hand (dealParses_of_hand), board headers for every board number.',
+ 'C19': REGEX5 + 'Audited here as well: Lemmas/RegexMsgBid*, RegexMsgClient*, RegexMsgHand* (the engine on every message pattern of both ends = the scanners of '
+        'Model/Msg.lean, on the stated classes of subjects, with kernel-checked counterexamples where a class restriction is needed: U+001C-U+001F for \\s, '
+        'non-ASCII decimal digits for \\d) and the translated parsers of both ends = the model parsers (MsgParsers*, ClientParsers*, HandParsers*), so the '
+        'round-trip theorems of this property (builder text read back as the value) now speak about the translated builders AND parsers for every value, '
+        'not only for the kernel-evaluated finite families of Translated/Messages.lean.',
+ 'C20': REGEX5 + 'Lemmas/RegexConnect*.lean + Translated/ConnectInfo.lean: the translated parse_connection_info returns the model\'s (team, seat, version) or raises '
+        'Exception / ValueError for EVERY request text without a non-ASCII decimal digit, at every fuel >= 31 (parse_connection_info_translated).',
+}
+for k, extra in ADDENDA5.items():
+    if k in CLAIMS:
+        t, n, tech = CLAIMS[k]
+        CLAIMS[k] = (t + extra, n, tech)
 for k, extra in ADDENDA.items():
     if k in CLAIMS:
         t, n, tech = CLAIMS[k]
